@@ -62,6 +62,15 @@ CHECKS = {
             "Trusted: the reference's binding-cell model (a unit's references resolve to the cells in force after its own defines; a unit rejected at compile time "
             "changes nothing). Longer histories and more names are outside the bound.",
             "DESIGN.md §3 C06"),
+    "C03": ("model_checking",
+            "explicit-state BFS over functional-update sequences per collection kind (state = model value) with every transition executed on the real engine under every holding mode of the operand, against Python models",
+            "For lists, immutable vectors, hash maps, hash sets and strings: every model state reachable by 1 (thorough 2) updates x every update of the alphabet x "
+            "17 ways the operand is held at the update site (global, live local, last use with a live alias, last use in one branch, loop-carried keeping all "
+            "versions, closure capture, inside list/vector/box/hash, rest argument, map callback, continuation, cloned by / moved to another thread), plus binary "
+            "operations over all pairs of states under 7 ownership patterns and with one object as both operands; JIT on and off. The result must equal the "
+            "model update of a fresh copy and every other holder must still see the old value.",
+            "Trusted: the Python models (vp/c11_coll.py). Thread hand-offs are sequenced; interleavings of the reference-count operations are C05's subject.",
+            "DESIGN.md §3 C03"),
 }
 
 NOT_YET = {}
